@@ -406,8 +406,17 @@ class Tracer:
                 u.dead_vals.add(u.val(arg))
         elif label == "Block.erase_arg":
             u.dead_vals.add(u.val(a[1]))
-        elif label in ("SSAValue.erase", "Rewriter.replace_value_with_new_type"):
+        elif label == "Rewriter.replace_value_with_new_type":
             u.dead_vals.add(u.val(a[0]))
+        elif label == "SSAValue.erase":
+            # SSAValue.erase only drops / redirects the uses; the value stays where its owner keeps it (a pattern may call it on
+            # a block argument and remove the argument with Block.erase_arg afterwards).  It is gone only if no owner lists it.
+            from xdsl.ir import BlockArgument, OpResult
+
+            v = a[0]
+            listed = (isinstance(v, BlockArgument) and any(x is v for x in v.owner.args)) or isinstance(v, OpResult)
+            if not listed:
+                u.dead_vals.add(u.val(v))
 
     def uninstall(self):
         for cls, nm, raw in reversed(self.installed):
